@@ -1,5 +1,5 @@
 """E3 rules: R-OFFSETS, R-WIRE (argument roles in the clone command), R-HASHEQ."""
-from ..facts import callee_q, callee_def
+from ..facts import callee_q, callee_def, succs
 from ..terms import Terms, simplify, has_call, has_call_deep, has_field, show, walk, freeze, calls_in
 from ..typestate import coroutine_of
 
@@ -279,6 +279,70 @@ def run(facts, cg):
                             'the index built at %s from a scan is keyed with %s, not with the hash length of the archive' % (gt['loc'], show(term)[:60]))
         if scans < 4:
             finding('R-WIRE', b.q, 'floor', 'expected the output scan and the seed scans (config + hash length) to be found, got %d role sites: cannot decide' % scans)
+    # ... and a scan runs to the end of its input: the loop that takes chunks off the chunker's stream and enters them into the index
+    # is left only when the stream has ended (the None edge of `next()`) or with an error.  A `break` on a count of "chunks still to
+    # find" (decremented per occurrence, so a chunk that repeats ends the scan early) leaves chunks the output holds unindexed:
+    # they are fetched again.
+    from .r_steps import exit_outcomes_from
+    n_scanloop = 0
+    for b in facts.bodies.values():
+        if b.crate != 'bita' or b.generated:
+            continue
+        adds = [bi for bi, t in b.calls() if 'q' in t['callee'] and callee_q(t).endswith('ChunkIndex::add_chunk')]
+        nexts = [(bi, t) for bi, t in b.calls() if 'q' in t['callee'] and callee_q(t).split('::')[-1] in ('next', 'try_next', 'poll_next', 'poll_next_unpin')
+                 and ('StreamExt' in callee_q(t) or 'TryStreamExt' in callee_q(t) or 'Stream' in callee_q(t))]
+        if not adds or not nexts:
+            continue
+        # the natural loop around the add: blocks from which the `next()` call is reached again
+        preds = b.preds()
+
+        def reach_back(goal):
+            seen, w = set(), [goal]
+            while w:
+                x = w.pop()
+                if x in seen:
+                    continue
+                seen.add(x)
+                w.extend(p_ for p_ in preds.get(x, ()) if not b.blocks[p_].get('cleanup'))
+            return seen
+
+        def reach_fwd(start):
+            seen, w = set(), [start]
+            while w:
+                x = w.pop()
+                if x in seen or b.blocks[x].get('cleanup'):
+                    continue
+                seen.add(x)
+                w.extend(succs(b.blocks[x]['term']))
+            return seen
+        for nbi, nt in nexts:
+            loop = reach_fwd(nbi) & reach_back(nbi)
+            if not any(a_ in loop for a_ in adds):
+                continue
+            n_scanloop += 1
+            bad = []
+            for x in sorted(loop):
+                t = b.blocks[x]['term']
+                for y in succs(t):
+                    if y in loop or b.blocks[y].get('cleanup'):
+                        continue
+                    if t['k'] == 'switch':
+                        ct = simplify(T.of_operand(b, t['op']))
+                        # the dispatch on what `next()` gave: its None edge is the regular way out
+                        if isinstance(ct, tuple) and ct[0] == 'discr' and any(n_[0] in ('call', 'await') and ('next' in str(n_[1]) or n_[0] == 'await') for n_ in walk(ct)) and \
+                                not any(n_[0] == 'variant' and n_[1] not in ('Ready',) for n_ in walk(ct)):
+                            continue
+                    if t['k'] in ('yield',):
+                        continue
+                    if exit_outcomes_from(b, y) <= {'Err'}:
+                        continue
+                    bad.append(t['loc'])
+            instances.append({'rule': 'R-WIRE(scan-loop)', 'function': b.q, 'at': nt['loc'], 'exits_other_than_end_of_stream_or_error': bad})
+            for loc in bad[:1]:
+                finding('R-WIRE', b.q, 'scan-ends-early', 'the loop that indexes what a scan finds can be left at %s although the stream has not ended: chunks further on in the '
+                        'input are not indexed - what the output already holds is fetched again' % loc)
+    if n_scanloop < 1:
+        finding('R-WIRE', '-', 'floor-scan-loop', 'the loop that enters scanned chunks into an index was not found (cannot decide)')
     # what a scan (of a seed, of the prior output) sees is every chunk of that one input: nothing thins the chunker's stream
     # before it is hashed and looked up (the input's own short last chunk is the source's last chunk when the two end alike),
     # and no two inputs are glued into one stream (the chunker's state would run across the join)
@@ -527,6 +591,8 @@ def run(facts, cg):
             continue
         for bi, t in b.calls():
             rq = t['callee'].get('rq', '') or ''
+            if 'q' not in t['callee']:
+                continue
             if not (rq.startswith('<bitar::hashsum::HashSum as core::convert::From') or
                     (callee_q(t).endswith('Into::into') and t['dest'] and b.lty(t['dest']['l']).get('adt') == HASHSUM and not t['dest']['p'])):
                 continue
